@@ -127,8 +127,9 @@ class RefStage(object):
         d = scratch.new_dir('ref')
         self.tmp = scratch.new_dir('tmp')
         self.ref = refdata.make_reference(
-            d / 'data', n_leaves=7, cells_per=3, n_genes=8, seed=seed,
-            n_files=2)
+            d / 'data', n_leaves=self.params.get('n_leaves', 7),
+            cells_per=self.params.get('cells_per', 3), n_genes=8, seed=seed,
+            n_files=self.params.get('n_files', 2))
         if self.kind == 'transpose':
             self.mat = sparsegen.wide_matrix(12, 9, seed + 3)
             self.src = d / 'csc_src.h5'
@@ -261,6 +262,12 @@ def stage_catalog(tier):
         RefStage('precompute_3', 'precompute', 3, n_workers=3),
         RefStage('precompute_2_copy', 'precompute', 2, n_workers=2,
                  copy_data_over=True),
+        # two big clusters whose cells are spread over all four workers:
+        # every (cluster, gene) sum is the sum of four partial sums, so the
+        # order in which the partial results are added shows in the last
+        # bits
+        RefStage('precompute_4_bulk', 'precompute', 4, n_workers=4,
+                 n_leaves=2, cells_per=10, n_files=1, rows_at_a_time=2),
         RefStage('pmask_4x2', 'pmask', 2, n_per=6, n_workers=4),
         RefStage('pmask_4x3', 'pmask', 3, n_per=6, n_workers=4),
         RefStage('refmarkers_2', 'refmarkers', 2),
